@@ -136,3 +136,486 @@ Proof.
   cbn [forallb] in *. apply andb_true_iff in Hp as [Hx Hp]. rewrite (He x Hx), (IH Hp He). reflexivity.
 Qed.
 
+
+(* ================================================================== *)
+(* the enum case list *)
+Lemma case_index_ge cs tag : forall i idx var, case_index cs tag i = Some (idx, var) -> i <= idx.
+Proof.
+  induction cs as [|[d v] cs IH]; intros i idx var H; cbn [case_index] in H; [discriminate|].
+  destruct (d =? tag).
+  - injection H as <- _. lia.
+  - apply IH in H. lia.
+Qed.
+
+Lemma case_index_In cs tag : forall i idx var, case_index cs tag i = Some (idx, var) -> In (tag, var) cs.
+Proof.
+  induction cs as [|[d v] cs IH]; intros i idx var H; cbn [case_index] in H; [discriminate|].
+  destruct (d =? tag) eqn:Ed.
+  - injection H as _ <-. apply N.eqb_eq in Ed. subst d. left. reflexivity.
+  - right. eapply IH. exact H.
+Qed.
+
+Lemma number_from_nth {A} (l : list A) : forall i d x,
+  In (d, x) (number_from i l) -> i <= d /\ nth_error l (N.to_nat (d - i)) = Some x.
+Proof.
+  induction l as [|y l IH]; intros i d x H; cbn [number_from] in H; [destruct H|].
+  destruct H as [H|H].
+  - injection H as <- <-. split; [lia|]. rewrite N.sub_diag. reflexivity.
+  - apply IH in H as [H1 H2]. split; [lia|].
+    replace (N.to_nat (d - i)) with (Datatypes.S (N.to_nat (d - (i + 1)))) by lia. exact H2.
+Qed.
+
+Lemma cases_of_nth m tag var :
+  In (tag, var) (cases_of m) -> nth_error (e_variants m) (N.to_nat tag) = Some var.
+Proof.
+  unfold cases_of. intros H.
+  assert (H': In (tag, var) (number_from 0 (e_variants m))).
+  { destruct (e_sorted m); [apply sort_variants_In|]; exact H. }
+  apply number_from_nth in H' as [_ H']. rewrite N.sub_0_r in H'. exact H'.
+Qed.
+
+Lemma case_index_nth m tag idx var :
+  case_index (cases_of m) tag 0 = Some (idx, var) ->
+  nth_error (e_variants m) (N.to_nat tag) = Some var.
+Proof. intros H. apply cases_of_nth. eapply case_index_In. exact H. Qed.
+
+(* ================================================================== *)
+(* normv at the fuel at which the encoder succeeds is already the final normal form *)
+Lemma enc_fields_v0_norm_ext encf nv nv' :
+  (forall t v st r, encf t v st = Ok r -> nv t v = nv' t v) ->
+  forall fs vs st r, enc_fields_v0 encf fs vs st = Ok r ->
+    norm_fields nv fs vs = norm_fields nv' fs vs.
+Proof.
+  intros H. induction fs as [|f fs IH]; intros vs st r He; destruct vs as [|x vs]; try reflexivity.
+  cbn [enc_fields_v0] in He. cbn [norm_fields].
+  destruct (f_transient f).
+  - f_equal. eapply IH; eassumption.
+  - destruct (encf (f_ty f) x st) as [[b1 st1]| | |] eqn:E1; try discriminate. cbn [bind] in He.
+    destruct (enc_fields_v0 encf fs vs st1) as [[b2 st2]| | |] eqn:E2; try discriminate.
+    f_equal; [eapply H; eassumption | eapply IH; eassumption].
+Qed.
+
+Lemma enc_fields_chunked_norm_ext encf nv nv' steps :
+  (forall t v st r, encf t v st = Ok r -> nv t v = nv' t v) ->
+  forall fs vs ss st r, enc_fields_chunked encf steps fs vs ss st = Ok r ->
+    norm_fields nv fs vs = norm_fields nv' fs vs.
+Proof.
+  intros H. induction fs as [|f fs IH]; intros vs ss st r He; destruct vs as [|x vs]; try reflexivity.
+  cbn [enc_fields_chunked] in He. cbn [norm_fields].
+  destruct (f_transient f).
+  - f_equal. eapply IH; eassumption.
+  - destruct (encf (f_ty f) x st) as [[b1 st1]| | |] eqn:E1; try discriminate. cbn [bind] in He.
+    destruct (app_nth _ _ _) as [chunks|]; [|discriminate].
+    destruct (ser_record_index _ _ _) as [ss1| | |]; try discriminate. cbn [bind] in He.
+    f_equal; [eapply H; eassumption | eapply IH; eassumption].
+Qed.
+
+Lemma enc_record_norm_ext encf nv nv' :
+  (forall t v st r, encf t v st = Ok r -> nv t v = nv' t v) ->
+  forall m vs st r, enc_record encf m vs st = Ok r ->
+    norm_fields nv (r_fields m) vs = norm_fields nv' (r_fields m) vs.
+Proof.
+  intros H m vs st r He. unfold enc_record in He. destruct (r_steps m) as [|s0 steps] eqn:Es.
+  - destruct (enc_fields_v0 encf (r_fields m) vs st) as [[b1 st1]| | |] eqn:E1; try discriminate.
+    eapply enc_fields_v0_norm_ext; eassumption.
+  - destruct (255 <=? _); [discriminate|].
+    destruct (prerender_names _ _ _) as [[pre st1]| | |]; try discriminate. cbn [bind] in He.
+    destruct (enc_fields_chunked _ _ _ _ _ _) as [[ss st2]| | |] eqn:E2; try discriminate.
+    eapply enc_fields_chunked_norm_ext; eassumption.
+Qed.
+
+Lemma enc_items_each (e : encoder) : forall fuel vs st r,
+  enc_items fuel e vs st = Ok r -> forall x, In x vs -> exists st1 r1, e x st1 = Ok r1.
+Proof.
+  induction fuel as [|fl IH]; intros vs st r He x Hx; destruct vs as [|v vs]; try destruct Hx; try discriminate.
+  - subst v. cbn [enc_items] in He. destruct (e x st) as [[b1 st1]| | |] eqn:E1; try discriminate. eauto.
+  - cbn [enc_items] in He. destruct (e v st) as [[b1 st1]| | |] eqn:E1; try discriminate. cbn [bind] in He.
+    destruct (enc_items fl e vs st1) as [[b2 st2]| | |] eqn:E2; try discriminate.
+    eapply IH; eassumption.
+Qed.
+
+Lemma enc_seq_each (e : encoder) fuel vs st r :
+  enc_seq fuel e vs st = Ok r -> forall x, In x vs -> exists st1 r1, e x st1 = Ok r1.
+Proof.
+  unfold enc_seq. destruct (nlen vs <? 2 ^ 31); [|discriminate].
+  destruct (enc_items fuel e vs st) as [[b1 st1]| | |] eqn:E1; try discriminate.
+  intros _. eapply enc_items_each. exact E1.
+Qed.
+
+Lemma map_ext_In' {A B} (f g : A -> B) l : (forall x, In x l -> f x = g x) -> map f l = map g l.
+Proof. intros H. apply map_ext_in. exact H. Qed.
+
+Lemma normv_named g E n tag vs :
+  normv (S g) E (TNamed n) (VNode tag vs) =
+  match lookup_decl E n with
+  | None => VNode tag vs
+  | Some d =>
+      match d_body d with
+      | DRecord m => VNode tag (norm_fields (normv g E) (r_fields m) vs)
+      | DEnum m =>
+          match nth_error (e_variants m) (N.to_nat tag) with
+          | Some var => VNode tag (norm_fields (normv g E) (r_fields (v_rec var)) vs)
+          | None => VNode tag vs
+          end
+      end
+  end.
+Proof. reflexivity. Qed.
+
+Lemma normv_tuple g E ts vs :
+  normv (S g) E (TTuple ts) (VNode 0 vs) = VNode 0 (norm_fields (normv g E) (r_fields (tuple_meta ts)) vs).
+Proof. reflexivity. Qed.
+
+Lemma normv_seq g E k e vs :
+  normv (S g) E (TSeq k e) (VNode 0 vs) =
+  if byte_path k e then VNode 0 vs else VNode 0 (map (normv g E e) vs).
+Proof. reflexivity. Qed.
+
+Lemma normv_map g E mk kt vt vs :
+  normv (S g) E (TMap mk kt vt) (VNode 0 vs) = VNode 0 (map (normv g E (TTuple [kt; vt])) vs).
+Proof. reflexivity. Qed.
+
+Lemma normv_wrap g E wk t v : normv (S g) E (TWrap wk t) v = normv g E t v.
+Proof. reflexivity. Qed.
+
+Lemma norm_stable_S : forall g E t v st r,
+  enc g E t v st = Ok r -> normv (S g) E t v = normv g E t v.
+Proof.
+  induction g as [|g IH]; intros E t v st r He; [cbn [enc] in He; discriminate|].
+  assert (IH' : forall t v st r, enc g E t v st = Ok r -> normv (S g) E t v = normv g E t v)
+    by (intros; eapply IH; eassumption).
+  destruct t as [p|t'|tr te|ts|k e|mk kt vt|wk t'| |n].
+  - destruct v; reflexivity.
+  - destruct v as [| | |tag vs]; try reflexivity.
+    destruct tag as [|[p|p|]]; try reflexivity.
+    destruct vs as [|x [|y vs]]; try reflexivity.
+    cbn [enc] in He. destruct (enc g E t' x st) as [[b1 st1]| | |] eqn:E1; try discriminate.
+    change (normv (S (S g)) E (TOption t') (VNode 1 [x])) with (VNode 1 [normv (S g) E t' x]).
+    change (normv (S g) E (TOption t') (VNode 1 [x])) with (VNode 1 [normv g E t' x]).
+    erewrite IH' by eassumption. reflexivity.
+  - destruct v as [| | |tag vs]; try reflexivity.
+    destruct tag as [|[p|p|]]; try reflexivity;
+    destruct vs as [|x [|y vs]]; try reflexivity; cbn [enc] in He.
+    + destruct (enc g E te x st) as [[b1 st1]| | |] eqn:E1; try discriminate.
+      change (normv (S (S g)) E (TResult tr te) (VNode 0 [x])) with (VNode 0 [normv (S g) E te x]).
+      change (normv (S g) E (TResult tr te) (VNode 0 [x])) with (VNode 0 [normv g E te x]).
+      erewrite IH' by eassumption. reflexivity.
+    + destruct (enc g E tr x st) as [[b1 st1]| | |] eqn:E1; try discriminate.
+      change (normv (S (S g)) E (TResult tr te) (VNode 1 [x])) with (VNode 1 [normv (S g) E tr x]).
+      change (normv (S g) E (TResult tr te) (VNode 1 [x])) with (VNode 1 [normv g E tr x]).
+      erewrite IH' by eassumption. reflexivity.
+  - destruct v as [| | |tag vs]; try reflexivity.
+    destruct tag as [|p]; [|reflexivity].
+    cbn [enc] in He. rewrite !normv_tuple. f_equal.
+    eapply enc_record_norm_ext; [|exact He]. intros; eapply IH'; eassumption.
+  - destruct v as [| | |tag vs]; try reflexivity.
+    destruct tag as [|p]; [|reflexivity].
+    rewrite !normv_seq. cbn [enc] in He. destruct (byte_path k e); [reflexivity|].
+    f_equal. apply map_ext_in. intros x Hx.
+    destruct (enc_seq_each _ _ _ _ _ He x Hx) as (st1 & r1 & H1). eapply IH'; exact H1.
+  - destruct v as [| | |tag vs]; try reflexivity.
+    destruct tag as [|p]; [|reflexivity].
+    rewrite !normv_map. cbn [enc] in He.
+    f_equal. apply map_ext_in. intros x Hx.
+    destruct (enc_seq_each _ _ _ _ _ He x Hx) as (st1 & r1 & H1). eapply IH'; exact H1.
+  - rewrite !normv_wrap. cbn [enc] in He. eapply IH'; exact He.
+  - destruct v; reflexivity.
+  - destruct v as [| | |tag vs]; try reflexivity.
+    rewrite !normv_named. cbn [enc] in He.
+    destruct (lookup_decl E n) as [d|]; [|reflexivity].
+    destruct (d_body d) as [m|m].
+    + destruct tag as [|p]; [|discriminate]. f_equal.
+      eapply enc_record_norm_ext; [|exact He]. intros; eapply IH'; eassumption.
+    + unfold enc_enum in He.
+      destruct (case_index (cases_of m) tag 0) as [[idx var]|] eqn:Eci; [|discriminate].
+      destruct (v_transient var); [discriminate|].
+      destruct (2 ^ 32 <=? idx); [discriminate|].
+      destruct (enc_record (enc g E) (v_rec var) vs st) as [[b1 st1]| | |] eqn:Er; try discriminate.
+      rewrite (case_index_nth _ _ _ _ Eci). f_equal.
+      eapply enc_record_norm_ext; [|exact Er]. intros; eapply IH'; eassumption.
+Qed.
+
+Lemma norm_stable : forall g g' E t v st r,
+  (g <= g')%nat -> enc g E t v st = Ok r -> normv g' E t v = normv g E t v.
+Proof.
+  intros g g' E t v st [b st'] Hle He. induction Hle as [|g' Hle IH]; [reflexivity|].
+  rewrite <- IH. eapply norm_stable_S. eapply enc_mono_ok; [exact Hle | exact He].
+Qed.
+
+(* ================================================================== *)
+(* tuples are records without evolution steps *)
+Lemma tuple_names_fresh ts : forall i j, j < i ->
+  existsb (bytes_eqb (tuple_field_name j)) (map f_name (tuple_fields ts i)) = false.
+Proof.
+  induction ts as [|t ts IH]; intros i j Hj; cbn [tuple_fields map existsb f_name]; [reflexivity|].
+  rewrite (IH (i + 1) j) by lia. rewrite orb_false_r. apply bytes_eqb_neq.
+  unfold tuple_field_name. intros H. assert (H2 : 48 + j = 48 + i) by congruence. lia.
+Qed.
+
+Lemma tuple_names_nodup ts : forall i, names_nodup (map f_name (tuple_fields ts i)) = true.
+Proof.
+  induction ts as [|t ts IH]; intros i; cbn [tuple_fields map names_nodup f_name]; [reflexivity|].
+  rewrite tuple_names_fresh by lia. rewrite IH. reflexivity.
+Qed.
+
+Lemma tuple_fields_wf E ts : forall i,
+  forallb (wf_ty E) ts = true -> forallb (wf_field E []) (tuple_fields ts i) = true.
+Proof.
+  induction ts as [|t ts IH]; intros i H; cbn [tuple_fields forallb] in *; [reflexivity|].
+  apply andb_true_iff in H as [H1 H2]. rewrite IH by exact H2.
+  unfold wf_field.
+  cbn [f_ty f_opt f_transient f_name in_removed existsb made_optional_at last_index_where is_some negb orb andb].
+  rewrite H1. reflexivity.
+Qed.
+
+Lemma tuple_meta_wf E ts : wf_ty E (TTuple ts) = true -> wf_rmeta E (tuple_meta ts) = true.
+Proof.
+  cbn [wf_ty]. intros H. apply andb_true_iff in H as [H H3]. apply andb_true_iff in H as [H1 H2].
+  unfold wf_rmeta, tuple_meta. cbn [r_steps r_fields].
+  rewrite tuple_names_nodup, tuple_fields_wf by exact H3. rewrite !andb_true_r.
+  apply andb_true_iff; split; [reflexivity|].
+  rewrite nlen_length, tuple_fields_length. rewrite nlen_length in H2. lia.
+Qed.
+
+Lemma nlen_map {A B} (f : A -> B) l : nlen (map f l) = nlen l.
+Proof. rewrite !nlen_length, map_length. reflexivity. Qed.
+
+(* ================================================================== *)
+(* enums: the chain of read_constructor attempts finds the encoded case *)
+Lemma read_cases_rt (decf : ty -> adecoder) tyname tag idx var k st rest vs' sfin :
+  idx < 2 ^ 32 ->
+  v_transient var = false ->
+  dec_record a_ops decf (v_rec var) (mkA rest k st) = Ok (VNode 0 vs', sfin) ->
+  forall cs i (ad : @adt_de bytes) s1,
+    case_index cs tag i = Some (idx, var) ->
+    ad_inputs ad = [] ->
+    ((ad_ctor ad = None /\ s1 = mkA (write_var_u32 idx ++ rest) k st) \/
+     (ad_ctor ad = Some idx /\ s1 = mkA rest k st)) ->
+    read_cases a_ops decf tyname cs i ad s1 = Ok (VNode tag vs', sfin).
+Proof.
+  intros Hidx Htr Hdec. induction cs as [|[d v] cs IH]; intros i ad s1 Hci Hin Hst; [discriminate|].
+  cbn [read_cases case_index] in *.
+  assert (Hrc: exists ad', read_ctor_idx a_ops ad s1 = Ok (idx, ad', mkA rest k st)
+                           /\ ad_inputs ad' = [] /\ ad_ctor ad' = Some idx).
+  { unfold read_ctor_idx, in_chunk. destruct Hst as [[Hc ->]|[Hc ->]]; rewrite Hc.
+    - rewrite Hin. cbn [a_ops d_rd].
+      rewrite (a_read_var_u32 k st _ idx rest) by (apply var_u32_roundtrip_list; exact Hidx).
+      cbn [bind]. eexists; split; [reflexivity|]. cbn [ad_inputs ad_ctor]. auto.
+    - eexists; split; [reflexivity|auto]. }
+  destruct Hrc as (ad' & -> & Hin' & Hc'). cbn [bind].
+  destruct (d =? tag) eqn:Ed.
+  - injection Hci as Hi Hv. subst i v. rewrite N.eqb_refl. rewrite Htr.
+    unfold in_chunk. rewrite Hin'. rewrite Hdec. cbn [bind].
+    apply N.eqb_eq in Ed. subst d. reflexivity.
+  - pose proof (case_index_ge _ _ _ _ _ Hci) as Hge.
+    assert (idx =? i = false) as -> by lia.
+    apply IH; auto.
+Qed.
+
+(* ================================================================== *)
+(* the fuel induction *)
+Definition wf_env_rt (E : env) : bool :=
+  forallb (fun d => match d_body d with
+                    | DRecord m => wf_rmeta_rt m
+                    | DEnum m => forallb (fun v => wf_rmeta_rt (v_rec v)) (e_variants m)
+                    end) E.
+
+Section RT.
+  Hypothesis CH : rt_record_chunked_stmt.
+  Variable E : env.
+  Hypothesis HE : wf_env E = true.
+  Hypothesis HErt : wf_env_rt E = true.
+
+  (* the value may be well-formed at a larger fuel than the one the encoder is run with:
+     wf_val's map clause checks the components of a pair at the fuel at which the encoder
+     sees the pair itself *)
+  Definition RT (g : nat) : Prop := forall f t v st b st' s k,
+    (g <= f)%nat -> wf_ty E t = true -> wf_val f E t v = true ->
+    enc g E t v st = Ok (b, st') ->
+    dec a_ops g E t (mkA (b ++ s) k st) = Ok (normv g E t v, mkA s k st').
+
+  Lemma FO g f : (g <= f)%nat -> (forall g0, (g0 <= g)%nat -> RT g0) ->
+    RecordRt.fields_ok E (enc g E) (dec a_ops g E) (wf_val f E) (normv g E).
+  Proof.
+    intros Hle HRT. split.
+    - intros t Ht v st b st' s k Hw He. eapply (HRT g (le_n _)); eassumption.
+    - intros t' Ht' v st b st' s k Hw He.
+      destruct g as [|g]; [cbn [enc] in He; discriminate|].
+      destruct f as [|f]; [cbn [wf_val] in Hw; discriminate|].
+      cbn [enc] in He. cbn [wf_val] in Hw.
+      destruct v as [| | |tag vs]; try discriminate.
+      destruct tag as [|[p|p|]]; try discriminate; destruct vs as [|x [|y vs]]; try discriminate.
+      + left. apply ok_pair_inj in He as [<- <-]. split; [reflexivity|]. split; [reflexivity|].
+        split; reflexivity.
+      + right. destruct (enc g E t' x st) as [[b1 st1]| | |] eqn:E1; try discriminate. cbn [bind] in He.
+        apply ok_pair_inj in He as [<- <-]. exists x, b1.
+        assert (Hn: normv (S g) E t' x = normv g E t' x) by (eapply norm_stable_S; exact E1).
+        split; [reflexivity|]. split; [reflexivity|]. split.
+        * change (normv (S g) E (TOption t') (VNode 1 [x])) with (VSome (normv g E t' x)).
+          rewrite Hn. reflexivity.
+        * rewrite Hn. apply dec_mono_ok with (f := g); [lia|].
+          eapply (HRT g); try eassumption; lia.
+  Qed.
+
+  Lemma decl_wf n d : lookup_decl E n = Some d ->
+    wf_decl E d = true /\
+    match d_body d with
+    | DRecord m => wf_rmeta_rt m
+    | DEnum m => forallb (fun v => wf_rmeta_rt (v_rec v)) (e_variants m)
+    end = true.
+  Proof.
+    unfold lookup_decl. intros H. apply nth_error_In in H. split.
+    - unfold wf_env in HE. rewrite forallb_forall in HE. apply HE. exact H.
+    - unfold wf_env_rt in HErt. rewrite forallb_forall in HErt. apply (HErt d H).
+  Qed.
+
+  Lemma rt_record_any g f m vs st b st' s k :
+    (g <= f)%nat -> (forall g0, (g0 <= g)%nat -> RT g0) ->
+    wf_rmeta E m = true -> wf_rmeta_rt m = true ->
+    wf_fields (wf_val f E) (r_fields m) vs = true ->
+    enc_record (enc g E) m vs st = Ok (b, st') ->
+    dec_record a_ops (dec a_ops g E) m (mkA (b ++ s) k st)
+    = Ok (VNode 0 (norm_fields (normv g E) (r_fields m) vs), mkA s k st').
+  Proof.
+    intros Hle HRT Hm Hmrt Hw He. pose proof (FO g f Hle HRT) as HFO.
+    destruct (r_steps m) as [|s0 ss] eqn:Es.
+    - eapply rt_record_v0; [exact HFO | exact Es | exact Hm | exact Hw | exact He].
+    - eapply CH; [exact HFO | rewrite Es; discriminate | exact Hm | exact Hmrt | exact Hw | exact He].
+  Qed.
+
+  Lemma RT_all : forall n g, (g <= n)%nat -> RT g.
+  Proof.
+    induction n as [|n IHn]; intros g Hg.
+    - assert (g = 0%nat) as -> by lia. intros f t v st b st' s k _ _ _ He. cbn [enc] in He. discriminate.
+    - destruct (Nat.eq_dec g (S n)) as [->|Hne]; [|apply IHn; lia].
+      intros f t v st b st' s k Hle Hty Hwf He.
+      destruct f as [|f]; [lia|]. assert (Hle' : (n <= f)%nat) by lia.
+      pose proof (FO n f Hle' IHn) as HFO.
+      assert (RTn : RT n) by (apply IHn; lia).
+      destruct t as [p|t'|tr te|ts|sk e|mk kt vt|wk t'| |nn].
+      + (* prim *)
+        cbn [enc] in He. cbn [wf_val] in Hwf. cbn [dec].
+        replace (normv (S n) E (TPrim p) v) with v by (destruct v; reflexivity).
+        apply rt_prim; assumption.
+      + (* option *)
+        cbn [wf_ty] in Hty. cbn [enc] in He. cbn [wf_val] in Hwf.
+        destruct v as [| | |tag vs]; try discriminate.
+        destruct tag as [|[p|p|]]; try discriminate; destruct vs as [|x [|y vs]]; try discriminate.
+        * apply ok_pair_inj in He as [<- <-]. cbn [dec app a_ops d_rd]. rewrite a_r_u8.
+          cbn [bind N.eqb]. reflexivity.
+        * destruct (enc n E t' x st) as [[b1 st1]| | |] eqn:E1; try discriminate. cbn [bind] in He.
+          apply ok_pair_inj in He as [<- <-]. cbn [dec app a_ops d_rd]. rewrite a_r_u8.
+          cbn [bind N.eqb Pos.eqb].
+          rewrite (RTn f t' x st b1 st1 s k Hle' Hty Hwf E1). cbn [bind]. reflexivity.
+      + (* result *)
+        cbn [wf_ty] in Hty. apply andb_true_iff in Hty as [Htr Hte].
+        cbn [enc] in He. cbn [wf_val] in Hwf.
+        destruct v as [| | |tag vs]; try discriminate.
+        destruct tag as [|[p|p|]]; try discriminate; destruct vs as [|x [|y vs]]; try discriminate.
+        * destruct (enc n E te x st) as [[b1 st1]| | |] eqn:E1; try discriminate. cbn [bind] in He.
+          apply ok_pair_inj in He as [<- <-]. cbn [dec app a_ops d_rd]. rewrite a_r_u8.
+          cbn [bind N.eqb].
+          rewrite (RTn f te x st b1 st1 s k Hle' Hte Hwf E1). cbn [bind]. reflexivity.
+        * destruct (enc n E tr x st) as [[b1 st1]| | |] eqn:E1; try discriminate. cbn [bind] in He.
+          apply ok_pair_inj in He as [<- <-]. cbn [dec app a_ops d_rd]. rewrite a_r_u8.
+          cbn [bind N.eqb Pos.eqb].
+          rewrite (RTn f tr x st b1 st1 s k Hle' Htr Hwf E1). cbn [bind]. reflexivity.
+      + (* tuple *)
+        cbn [enc] in He. cbn [wf_val] in Hwf.
+        destruct v as [| | |tag vs]; try discriminate. destruct tag as [|p]; [|discriminate].
+        cbn [dec]. rewrite normv_tuple.
+        eapply rt_record_v0; [exact HFO | reflexivity | apply tuple_meta_wf; exact Hty | exact Hwf | exact He].
+      + (* sequences *)
+        cbn [wf_ty] in Hty. cbn [enc] in He. cbn [wf_val] in Hwf. cbn [dec].
+        destruct (byte_path sk e) eqn:Ebp.
+        * destruct v as [| |bs|]; try discriminate.
+          rewrite (rt_bytes _ _ _ _ s k He). cbn [bind].
+          change (normv (S n) E (TSeq sk e) (VB bs)) with (VB bs).
+          destruct sk; try reflexivity. rewrite Hwf. reflexivity.
+        * destruct v as [| | |tag vs]; try discriminate. destruct tag as [|p]; [|discriminate].
+          apply andb_true_iff in Hwf as [Hall Hk]. rewrite normv_seq, Ebp.
+          assert (Hrt : rt_pair (enc n E e) (dec a_ops n E e) (wf_val f E e) (normv n E e)).
+          { intros v0 st0 b0 st0' s0 k0 Hw0 He0. eapply (RTn f); eassumption. }
+          rewrite (rt_seq _ _ _ _ Hrt n vs st b st' s k Hall He). cbn [bind].
+          assert (Hm: map (normv n E e) vs = map (normv f E e) vs).
+          { apply map_ext_in. intros x Hx.
+            destruct (enc_seq_each _ _ _ _ _ He x Hx) as (st1 & r1 & H1).
+            symmetry. eapply norm_stable; [exact Hle' | exact H1]. }
+          destruct sk; cbn [collect bind]; try reflexivity.
+          -- rewrite dedup_vals_nodup; [reflexivity | rewrite Hm; exact Hk | intros; reflexivity].
+          -- rewrite dedup_vals_nodup; [reflexivity | rewrite Hm; exact Hk | intros; reflexivity].
+          -- rewrite nlen_map, Hk. reflexivity.
+      + (* maps *)
+        cbn [wf_ty] in Hty. cbn [enc] in He. cbn [wf_val] in Hwf. cbn [dec].
+        destruct v as [| | |tag vs]; try discriminate. destruct tag as [|p]; [|discriminate].
+        apply andb_true_iff in Hwf as [Hall Hk]. rewrite normv_map.
+        assert (Htt : wf_ty E (TTuple [kt; vt]) = true).
+        { apply andb_true_iff in Hty as [H1 H2]. cbn [wf_ty forallb]. rewrite H1, H2. reflexivity. }
+        assert (Hrt : rt_pair (enc n E (TTuple [kt; vt])) (dec a_ops n E (TTuple [kt; vt]))
+                              (wf_val (S f) E (TTuple [kt; vt])) (normv n E (TTuple [kt; vt]))).
+        { intros v0 st0 b0 st0' s0 k0 Hw0 He0. eapply (RTn (S f)); try eassumption. lia. }
+        assert (Hshape : forall kv, In kv vs -> exists k0 x0, kv = VNode 0 [k0; x0]).
+        { rewrite forallb_forall in Hall. intros kv Hkv. specialize (Hall kv Hkv).
+          destruct kv as [| | |tag l]; try discriminate. destruct tag as [|p]; [|discriminate].
+          destruct l as [|k0 [|x0 [|z l]]]; try discriminate. eauto. }
+        assert (Hall' : forallb (wf_val (S f) E (TTuple [kt; vt])) vs = true).
+        { apply forallb_forall. intros kv Hkv. destruct (Hshape kv Hkv) as (k0 & x0 & ->).
+          rewrite forallb_forall in Hall. specialize (Hall _ Hkv). cbv beta iota in Hall.
+          apply andb_true_iff in Hall as [H1 H2].
+          cbn [wf_val tuple_meta tuple_fields r_fields wf_fields f_ty]. rewrite H1, H2. reflexivity. }
+        rewrite (rt_seq _ _ _ _ Hrt n vs st b st' s k Hall' He). cbn [bind].
+        rewrite map_collect_nodup; [reflexivity | | | intros; reflexivity].
+        * intros y Hy. apply in_map_iff in Hy as (kv & <- & Hkv).
+          destruct (Hshape kv Hkv) as (k0 & x0 & ->).
+          destruct n as [|n']; [cbn [normv]; eauto|].
+          rewrite normv_tuple. cbn [tuple_meta tuple_fields r_fields norm_fields f_transient f_ty]. eauto.
+        * rewrite map_map.
+          rewrite (map_ext_in _ (fun kv => key_of (normv f E (TTuple [kt; vt]) kv))); [exact Hk|].
+          intros kv Hkv. destruct (enc_seq_each _ _ _ _ _ He kv Hkv) as (st1 & r1 & H1).
+          f_equal. symmetry. eapply norm_stable; [exact Hle' | exact H1].
+      + (* wrappers *)
+        cbn [wf_ty] in Hty. cbn [enc] in He. cbn [wf_val] in Hwf. cbn [dec]. rewrite normv_wrap.
+        eapply (RTn f); eassumption.
+      + (* PhantomData *)
+        cbn [enc] in He. destruct v as [| | |tag vs]; try discriminate.
+        destruct tag as [|p]; [|discriminate]. destruct vs; [|discriminate].
+        apply ok_pair_inj in He as [<- <-]. reflexivity.
+      + (* declared types *)
+        cbn [enc] in He. cbn [wf_val] in Hwf. cbn [dec].
+        destruct (lookup_decl E nn) as [d|] eqn:El; [|discriminate].
+        destruct (decl_wf nn d El) as [Hd Hdrt]. unfold wf_decl in Hd.
+        destruct (d_body d) as [m|m] eqn:Eb.
+        * destruct v as [| | |tag vs]; try discriminate. destruct tag as [|p]; [|discriminate].
+          rewrite normv_named, El, Eb.
+          eapply rt_record_any; [exact Hle' | exact IHn | exact Hd | exact Hdrt | exact Hwf | exact He].
+        * destruct v as [| | |tag vs]; try discriminate.
+          unfold enc_enum in He.
+          destruct (case_index (cases_of m) tag 0) as [[idx var]|] eqn:Eci; [|discriminate].
+          destruct (v_transient var) eqn:Etr; [discriminate|].
+          destruct (2 ^ 32 <=? idx) eqn:Eidx; [discriminate|].
+          destruct (enc_record (enc n E) (v_rec var) vs st) as [[b1 st1]| | |] eqn:Er; try discriminate.
+          cbn [bind] in He. apply ok_pair_inj in He as [<- <-].
+          pose proof (case_index_nth _ _ _ _ Eci) as Hnth. rewrite Hnth in Hwf.
+          pose proof (nth_error_In _ _ Hnth) as Hin.
+          rewrite forallb_forall in Hd. specialize (Hd var Hin).
+          rewrite forallb_forall in Hdrt. specialize (Hdrt var Hin).
+          pose proof (rt_record_any n f (v_rec var) vs st b1 st1 s k Hle' IHn Hd Hdrt Hwf Er) as Hdr.
+          unfold dec_enum, ad_open.
+          change ((0 :: write_var_u32 idx ++ b1) ++ s) with (0 :: (write_var_u32 idx ++ b1) ++ s).
+          cbn [a_ops d_rd]. rewrite a_r_u8. cbn [bind N.eqb]. rewrite <- app_assoc.
+          erewrite read_cases_rt;
+            [ | | exact Etr | exact Hdr | exact Eci | reflexivity | left; split; reflexivity ]; [|lia].
+          rewrite normv_named, El, Eb, Hnth. reflexivity.
+  Qed.
+End RT.
+
+Theorem roundtrip_A : rt_record_chunked_stmt ->
+  forall f E t v st b st' s k,
+    wf_env E = true -> wf_env_rt E = true -> wf_ty E t = true -> wf_val f E t v = true ->
+    enc f E t v st = Ok (b, st') ->
+    dec a_ops f E t (mkA (b ++ s) k st) = Ok (normv f E t v, mkA s k st').
+Proof.
+  intros CH f E t v st b st' s k HE HErt Hty Hwf He.
+  eapply (RT_all CH E HE HErt f f (le_n _) f); try eassumption. lia.
+Qed.
+
+Print Assumptions roundtrip_A.
